@@ -2,7 +2,7 @@
    Models: model/C12Flex.v (flex.py step 6, css-flexbox 9.7), model/C12FlexLines.v (order, step 5, step 12),
    model/C12Grid.v (grid.py placement and track sizing); tied to /repo by the render correspondence of
    harness/p_c12.py (row_judge, col_judge, grid judges). *)
-From Coq Require Import QArith List ZArith Bool Permutation Sorted.
+From Coq Require Import QArith Qminmax List ZArith Bool Permutation Sorted.
 Require Import WV.model.C12Flex WV.model.C12FlexLines.
 Require Import WV.proofs.C12_flex_base WV.proofs.C12_flex_inv WV.proofs.C12_flex WV.proofs.C12_flex_lines.
 Import ListNotations.
@@ -57,6 +57,17 @@ Theorem C12_flex_fills (items : list item) (gap avail : Q) (r : list fst) :
 Proof. exact (flex_fills_and_proportional items gap avail r). Qed.
 Print Assumptions C12_flex_fills.
 
+(* factor sums below 1 (css-flexbox 9.7.4.b): when no flexible item ends on its min or max, the line is
+   resolved in one pass and takes min(1, sum of the flex factors of the flexible items) of the initial free space *)
+Theorem C12_flex_fills_fraction (items : list item) (gap avail : Q) (r : list fst) :
+  items <> [] -> Forall valid_item items -> Forall (fun it => 0 <= imin it) items ->
+  resolve items gap avail = Done r ->
+  let md := choose_mode items gap avail in
+  (forall x, In x r -> flexible md (fit x) = true -> inside x) ->
+  total gap r == avail - (1 - Qmin 1 (flex_sum md items)) * free_space avail gap (map (init_item md) items).
+Proof. exact (flex_fills_fraction items gap avail r). Qed.
+Print Assumptions C12_flex_fills_fraction.
+
 (* ---------------------------------------------------------------- order and line collection (step 5) *)
 
 (* the lines, concatenated, are the items in order-modified document order (a stable sort by `order`);
@@ -82,18 +93,18 @@ Print Assumptions C12_lines_greedy.
 (* one line: ids and widths are kept; the first item starts at origin + lead; consecutive margin boxes are
    gap + between apart; the last margin box ends trail before the end of the container; margin boxes + gaps +
    free space = container; auto margins absorb all the (non-negative) free space *)
-Theorem C12_justify_positions (j : justify) (origin W gap : Q) (line : list jitem) x t : line = x :: t ->
-  let ps := justify_line j origin W gap line in
+Theorem C12_justify_positions (reverse : bool) (j : justify) (origin W gap : Q) (line : list jitem) x t : line = x :: t ->
+  let ps := justify_line reverse j origin W gap line in
   let n := length line in
   exists free j',
-    (snd (margins_line (jfree W gap line) line) = free /\ j' = fallback JStart free j) /\
+    (snd (margins_line (jfree W gap line) line) = free /\ j' = fallback (if reverse then JEnd else JStart) free j) /\
     map pid ps = map jid line /\ map pw ps = map jw line /\
     (exists p ps', ps = p :: ps' /\ px p == origin + lead j' free n) /\
     chain (fun a b => px b == px a + pmw a + gap + between j' free n) ps /\
     last_edge ps + trail j' free n == origin + W /\
     sumQ pmw ps + gaps_len line gap + free == W /\
     ((0 < nautos line)%Z -> 0 <= jfree W gap line -> free == 0).
-Proof. exact (justify_positions j origin W gap line x t). Qed.
+Proof. exact (justify_positions reverse j origin W gap line x t). Qed.
 Print Assumptions C12_justify_positions.
 
 (* lead / between / trail per justify-content keyword *)
@@ -109,3 +120,200 @@ Theorem C12_justify_keywords (free : Q) (n : nat) : (0 < n)%nat ->
    between JEvenly free n * (nQ n + 1) == free).
 Proof. exact (justify_keywords free n). Qed.
 Print Assumptions C12_justify_keywords.
+
+(* ================================================================= grid (grid.py) *)
+Close Scope Q_scope.
+(* model/C12Flex.v calls its per-item state record `fst`; from here on `fst` is the pair projection again *)
+Notation fst := (@Datatypes.fst _ _).
+(* ---- C12 grid part: paste into coq/props/C12.v (needs these imports) ---- *)
+From Coq Require Import ZArith QArith Qminmax List Bool.
+Require Import WV.model.C12Grid WV.proofs.C12_grid_place WV.proofs.C12_grid_tracks.
+Import ListNotations.
+
+(* _intersect is exactly intersection of two non-empty integer intervals *)
+Theorem C12_grid_intersect_exact (p1 s1 p2 s2 : Z) : (0 < s1)%Z -> (0 < s2)%Z ->
+  (intersect p1 s1 p2 s2 = true <-> exists c : Z, (p1 <= c < p1 + s1)%Z /\ (p2 <= c < p2 + s2)%Z).
+Proof. exact (intersect_spec p1 s1 p2 s2). Qed.
+Print Assumptions C12_grid_intersect_exact.
+
+(* every count()/while loop of grid_layout step 1 terminates within the fuel the model computes, for all validated items
+   (integers non-zero, spans >= 1), both flow axes, sparse and dense *)
+Theorem C12_grid_place_fuel (tcols trows : Z) (colflow dense : bool) (items : list item) :
+  valid_items items -> grid_place tcols trows colflow dense items <> OutOfFuel.
+Proof. exact (grid_place_fuel tcols trows colflow dense items). Qed.
+Print Assumptions C12_grid_place_fuel.
+
+(* ... except the loop that reads the stale `first_i` (sparse, flow axis `span n`, other axis a line): when the model
+   answers Hang that loop returns None for EVERY fuel: a real divergence of the implementation *)
+Theorem C12_grid_hang_is_divergence (colflow dense : bool) (is1 is2 if1 : Z) (st : pstate) (i : nat) (it : item) :
+  item_valid it = true -> get_placement (fst_s colflow it) (fst_e colflow it) = None ->
+  step14 colflow dense is1 is2 if1 st (i, it) = Hang ->
+  dense = false /\
+  exists n stale si ssz,
+    fst_s colflow it = GSpan n /\ st_stale st = Some stale /\
+    get_placement (snd_s colflow it) (snd_e colflow it) = Some (si, ssz) /\
+    forall fuel, stale_search colflow fuel (GSpan n) si ssz (areas (st_log st)) stale
+                              (if (si <? st_cs st)%Z then (st_cf st + 1)%Z else st_cf st) = None.
+Proof. exact (grid_hang_is_divergence colflow dense is1 is2 if1 st i it). Qed.
+Print Assumptions C12_grid_hang_is_divergence.
+Theorem C12_grid_hang_refuted :
+  grid_place 3 2 false false [it_ GAuto GAuto GAuto GAuto; it_ (GLine 1) GAuto (GSpan 2) GAuto] = Hang.
+Proof. exact grid_hang_refuted. Qed.
+Print Assumptions C12_grid_hang_refuted.
+Theorem C12_grid_unbound_first_i : grid_place 3 2 false false [it_ (GLine 1) GAuto (GSpan 2) GAuto] = CrashUnbound.
+Proof. exact grid_unbound_first_i. Qed.
+Print Assumptions C12_grid_unbound_first_i.
+
+(* two different items share a cell only if both are placed by line numbers on both axes *)
+Theorem C12_grid_no_overlap (tcols trows : Z) (colflow dense : bool) (items : list item)
+    (pl : list (option area)) (b : Z * Z * Z * Z) :
+  valid_items items -> grid_place tcols trows colflow dense items = Ok (pl, b) ->
+  forall i j iti itj ai aj, i <> j ->
+    nth_error items i = Some iti -> nth_error items j = Some itj ->
+    nth_error pl i = Some (Some ai) -> nth_error pl j = Some (Some aj) ->
+    definite_item iti && definite_item itj = false ->
+    forall cx cy : Z, in_area ai cx cy -> in_area aj cx cy -> False.
+Proof. exact (grid_no_overlap tcols trows colflow dense items pl b). Qed.
+Print Assumptions C12_grid_no_overlap.
+
+(* every item gets an area of at least 1 x 1 tracks *)
+Theorem C12_grid_all_placed (tcols trows : Z) (colflow dense : bool) (items : list item)
+    (pl : list (option area)) (b : Z * Z * Z * Z) :
+  valid_items items -> grid_place tcols trows colflow dense items = Ok (pl, b) ->
+  length pl = length items /\
+  forall i, (i < length items)%nat ->
+    exists x y w h : Z, nth_error pl i = Some (Some (x, y, w, h)) /\ (1 <= w)%Z /\ (1 <= h)%Z.
+Proof. exact (grid_all_placed tcols trows colflow dense items pl b). Qed.
+Print Assumptions C12_grid_all_placed.
+
+(* every area lies inside the second-axis bounds [implicit_second_1, implicit_second_2) and not before implicit_first_1 *)
+Theorem C12_grid_inside_implicit_bounds (tcols trows : Z) (colflow dense : bool) (items : list item)
+    (pl : list (option area)) (x1 x2 y1 y2 : Z) :
+  valid_items items -> grid_place tcols trows colflow dense items = Ok (pl, (x1, x2, y1, y2)) ->
+  forall i (x y w h : Z), nth_error pl i = Some (Some (x, y, w, h)) ->
+    if colflow then (x1 <= x /\ y1 <= y /\ y + h <= y2)%Z else (y1 <= y /\ x1 <= x /\ x + w <= x2)%Z.
+Proof. exact (grid_inside_implicit_bounds tcols trows colflow dense items pl x1 x2 y1 y2). Qed.
+Print Assumptions C12_grid_inside_implicit_bounds.
+(* ... but NOT inside the first-axis end: the implicit grid is not extended for a spanning auto-placed item *)
+Theorem C12_grid_first_axis_bound_refuted :
+  exists items pl (x1 x2 y1 y2 x y w h : Z), valid_items items /\
+    grid_place 3 2 false false items = Ok (pl, (x1, x2, y1, y2)) /\
+    nth_error pl 0 = Some (Some (x, y, w, h)) /\ (y2 < y + h)%Z.
+Proof. exact grid_first_axis_bound_refuted. Qed.
+Print Assumptions C12_grid_first_axis_bound_refuted.
+
+(* sparse packing: fully automatic items, in order-modified document order, never go back on the flow axis *)
+Theorem C12_grid_row_major_order (tcols trows : Z) (colflow : bool) (items : list item) (l : plog) (b : Z * Z * Z * Z) :
+  valid_items items -> grid_place_log tcols trows colflow false items = Ok (l, b) ->
+  forall ch1 i it ch2 j jt ch3,
+    sort_children (index_from 0 items) = ch1 ++ (i, it) :: ch2 ++ (j, jt) :: ch3 ->
+    fully_auto it -> fully_auto jt ->
+    forall a c, lookup_area i l = Some a -> lookup_area j l = Some c ->
+    (fst (first_of colflow a) <= fst (first_of colflow c))%Z.
+Proof. exact (grid_row_major_order tcols trows colflow items l b). Qed.
+Print Assumptions C12_grid_row_major_order.
+(* ... the lexicographic (row, column) order of css-grid 8.5 is refuted: a later item is put before an earlier one *)
+Theorem C12_grid_lexicographic_order_refuted :
+  exists items pl b, valid_items items /\ grid_place 4 2 false false items = Ok (pl, b) /\
+    exists it jt (xa ya wa ha xb yb wb hb : Z),
+      nth_error items 1 = Some it /\ nth_error items 2 = Some jt /\ fully_auto it /\ fully_auto jt /\
+      nth_error pl 1 = Some (Some (xa, ya, wa, ha)) /\ nth_error pl 2 = Some (Some (xb, yb, wb, hb)) /\
+      ya = yb /\ (xb < xa)%Z.
+Proof. exact grid_lexicographic_order_refuted. Qed.
+Print Assumptions C12_grid_lexicographic_order_refuted.
+Theorem C12_grid_locked_item_skips_first_cell :
+  grid_place 3 2 false false [it_ GAuto GAuto (GLine 1) GAuto] = Ok ([Some (1, 0, 1, 1)%Z], (0, 3, 0, 2)%Z).
+Proof. exact grid_locked_item_skips_first_cell. Qed.
+Print Assumptions C12_grid_locked_item_skips_first_cell.
+Theorem C12_grid_negative_line_refuted :
+  exists a, grid_place 3 2 false false [it_ (GLine (-1)) GAuto (GLine 1) GAuto] = Ok ([Some a], (-2, 3, 0, 2)%Z) /\
+            a = (-2, 0, 1, 1)%Z /\ css_range 3 (GLine (-1)) GAuto = Some (3, 1)%Z /\
+            spec_lines 3 2 (it_ (GLine (-1)) GAuto (GLine 1) GAuto) a = false.
+Proof. exact grid_negative_line_refuted. Qed.
+Print Assumptions C12_grid_negative_line_refuted.
+
+(* ---- track sizing: px, percentage and fr tracks, definite container *)
+Theorem C12_tracks_fuel (ts : list track) (box gap : Q) (stretch : bool) :
+  ts <> [] -> resolve_tracks ts box gap stretch <> None.
+Proof. exact (tracks_fuel ts box gap stretch). Qed.
+Print Assumptions C12_tracks_fuel.
+
+Theorem C12_tracks_fixed_exact (ts : list track) (box gap : Q) (stretch : bool) (out : list Q) :
+  resolve_tracks ts box gap stretch = Some out ->
+  Forall2 (fun t o => match t with
+                      | TLen q => o == q
+                      | TPct p => o == box * p / 100
+                      | TFr _ b => b <= o
+                      end) ts out.
+Proof. exact (tracks_fixed_exact ts box gap stretch out). Qed.
+Print Assumptions C12_tracks_fixed_exact.
+
+Theorem C12_tracks_nonneg (ts : list track) (box gap : Q) (stretch : bool) (out : list Q) :
+  0 <= box -> Forall track_nonneg ts -> resolve_tracks ts box gap stretch = Some out -> Forall (fun o => 0 <= o) out.
+Proof. exact (tracks_nonneg ts box gap stretch out). Qed.
+Print Assumptions C12_tracks_nonneg.
+
+(* fr tracks without content (base 0), positive free space F: closed form of every track size *)
+Theorem C12_tracks_closed_form (ts : list track) (box gap : Q) (stretch : bool) (out : list Q) :
+  Forall plain ts -> 0 < free_space ts box gap ->
+  resolve_tracks ts box gap stretch = Some out ->
+  let F := free_space ts box gap in
+  let u := F / Qmax 1 (fr_sum ts) in
+  let R := F - u * fr_sum ts in
+  let e := if stretch && negb (Nat.eqb (length (filter is_fr ts)) 0)
+           then (if Qlt_le_dec 0 R then R / nfrQ ts else 0) else 0 in
+  Forall2 (fun t o => o == match t with TFr f _ => f * u + e | _ => base_of box t end) ts out.
+Proof. exact (tracks_closed_form ts box gap stretch out). Qed.
+Print Assumptions C12_tracks_closed_form.
+
+Theorem C12_tracks_partition_container (ts : list track) (box gap : Q) (stretch : bool) (out : list Q) :
+  Forall plain ts -> 0 < free_space ts box gap -> (1 <= length (filter is_fr ts))%nat ->
+  1 <= fr_sum ts \/ stretch = true ->
+  resolve_tracks ts box gap stretch = Some out ->
+  qsum out + (qlen ts - 1) * gap == box.
+Proof. exact (tracks_partition_container ts box gap stretch out). Qed.
+Print Assumptions C12_tracks_partition_container.
+
+Theorem C12_tracks_small_factors_leave_space (ts : list track) (box gap : Q) (out : list Q) :
+  Forall plain ts -> 0 < free_space ts box gap -> fr_sum ts < 1 ->
+  resolve_tracks ts box gap false = Some out ->
+  qsum out + (qlen ts - 1) * gap == box - free_space ts box gap * (1 - fr_sum ts).
+Proof. exact (tracks_small_factors_leave_space ts box gap out). Qed.
+Print Assumptions C12_tracks_small_factors_leave_space.
+Theorem C12_tracks_small_factors_leave_space_refuted :
+  exists ts box gap out, Forall plain ts /\ 0 < free_space ts box gap /\ fr_sum ts < 1 /\
+    resolve_tracks ts box gap true = Some out /\
+    ~ qsum out + (qlen ts - 1) * gap == box - free_space ts box gap * (1 - fr_sum ts).
+Proof. exact tracks_small_factors_leave_space_refuted. Qed.
+Print Assumptions C12_tracks_small_factors_leave_space_refuted.
+
+Theorem C12_fr_proportional (ts : list track) (box gap : Q) (stretch : bool) (out : list Q) :
+  Forall plain ts -> 0 < free_space ts box gap -> 1 <= fr_sum ts \/ stretch = false ->
+  resolve_tracks ts box gap stretch = Some out ->
+  forall i j fi bi fj bj oi oj,
+    nth_error ts i = Some (TFr fi bi) -> nth_error ts j = Some (TFr fj bj) ->
+    nth_error out i = Some oi -> nth_error out j = Some oj -> oi * fj == oj * fi.
+Proof. exact (fr_proportional ts box gap stretch out). Qed.
+Print Assumptions C12_fr_proportional.
+Theorem C12_fr_proportional_refuted :
+  exists ts box gap out, Forall plain ts /\ 0 < free_space ts box gap /\
+    resolve_tracks ts box gap true = Some out /\
+    exists oi oj, nth_error out 0 = Some oi /\ nth_error out 1 = Some oj /\ ~ oi * (1 # 2) == oj * (1 # 4).
+Proof. exact fr_proportional_refuted. Qed.
+Print Assumptions C12_fr_proportional_refuted.
+Theorem C12_tracks_partition_with_content_refuted :
+  exists ts box gap out, Forall track_nonneg ts /\ 0 < free_space ts box gap /\ 1 <= fr_sum ts /\
+    resolve_tracks ts box gap true = Some out /\ Forall2 Qeq out [90; 60; 180] /\ box < qsum out + (qlen ts - 1) * gap.
+Proof. exact tracks_partition_with_content_refuted. Qed.
+Print Assumptions C12_tracks_partition_with_content_refuted.
+
+(* track positions (3.5, justify-content normal/start) and item rectangles (4) *)
+Theorem C12_track_positions (sizes : list Q) (gap pos : Q) (k : nat) : (k < length sizes)%nat ->
+  nth k (qpositions sizes gap pos) 0 == track_start sizes gap pos k /\
+  track_start sizes gap pos (S k) == track_start sizes gap pos k + nth k sizes 0 + gap.
+Proof. exact (fun H => conj (track_positions_spec sizes gap pos k H) (tracks_consecutive sizes gap pos k H)). Qed.
+Print Assumptions C12_track_positions.
+Theorem C12_area_rectangle (sizes : list Q) (gap pos : Q) (x w : nat) : (x + w <= length sizes)%nat ->
+  track_start sizes gap pos x + span_extent sizes gap x w == track_start sizes gap pos (x + w) - gap.
+Proof. exact (span_extent_spec sizes gap pos x w). Qed.
+Print Assumptions C12_area_rectangle.
